@@ -20,7 +20,7 @@ MANIFEST = {
           'writeCachedDataPoints() with MAX_UPDATES_PER_SECOND and MAX_CREATES_PER_MINUTE on, shutdownModifyUpdateSpeed() '
           'injected before every backend call, same window check on the virtual call times of create() and write().',
   'note': 'States are not merged (the window oracle depends on the whole grant history), so states = histories. '
-          'Rates and capacities outside the 5 configurations and costs other than 1 token are not covered. Writer level also under six backend fault patterns; windows are computed over create()/write() call times whether or not the call succeeded.',
+          'Rates and capacities outside the 5 configurations and costs other than 1 token are not covered. Writer level also under six backend fault patterns; windows are computed over create()/write() call times whether or not the call succeeded. Limits written in a [cache:b] section go through the real start-up and every resulting setting is carried into the writer process.',
 }
 
 EPS = 1e-6
